@@ -96,7 +96,9 @@ pub fn count_eq<T: PartialEq>(vals: &[T], n: usize, w: &T) -> usize {
 //   0: C-order, owned                      1: F-order (column-major)
 //   2: every second row and column of a (2R+1) x (2C+1) parent, offset (1,1)
 //   3: both axes reversed                  4: F-order parent, rows reversed
-pub const LAYOUTS_2D: u8 = 5;
+//   5: C-order parent, rows reversed (contiguous, last axis stride +1)
+//   6: C-order parent, columns reversed
+pub const LAYOUTS_2D: u8 = 7;
 
 pub fn parent2<T: Copy>(vals: &[T], r: usize, c: usize, layout: u8, fill: T) -> Array2<T> {
     match layout {
@@ -110,7 +112,9 @@ pub fn parent2<T: Copy>(vals: &[T], r: usize, c: usize, layout: u8, fill: T) -> 
             }
         }),
         3 => Array2::from_shape_fn((r, c), |(i, j)| vals[(r - 1 - i) * c + (c - 1 - j)]),
-        _ => Array2::from_shape_fn((r, c).f(), |(i, j)| vals[(r - 1 - i) * c + j]),
+        4 => Array2::from_shape_fn((r, c).f(), |(i, j)| vals[(r - 1 - i) * c + j]),
+        5 => Array2::from_shape_fn((r, c), |(i, j)| vals[(r - 1 - i) * c + j]),
+        _ => Array2::from_shape_fn((r, c), |(i, j)| vals[i * c + (c - 1 - j)]),
     }
 }
 
@@ -119,7 +123,8 @@ pub fn view2<'a, T>(p: &'a Array2<T>, layout: u8) -> ArrayView2<'a, T> {
         0 | 1 => p.view(),
         2 => p.slice(s![1..;2, 1..;2]),
         3 => p.slice(s![..;-1, ..;-1]),
-        _ => p.slice(s![..;-1, ..]),
+        4 | 5 => p.slice(s![..;-1, ..]),
+        _ => p.slice(s![.., ..;-1]),
     }
 }
 
@@ -128,7 +133,8 @@ pub fn view2_mut<'a, T>(p: &'a mut Array2<T>, layout: u8) -> ArrayViewMut2<'a, T
         0 | 1 => p.view_mut(),
         2 => p.slice_mut(s![1..;2, 1..;2]),
         3 => p.slice_mut(s![..;-1, ..;-1]),
-        _ => p.slice_mut(s![..;-1, ..]),
+        4 | 5 => p.slice_mut(s![..;-1, ..]),
+        _ => p.slice_mut(s![.., ..;-1]),
     }
 }
 
@@ -138,7 +144,8 @@ pub fn at2<T: Copy>(p: &Array2<T>, r: usize, c: usize, layout: u8, i: usize, j: 
         0 | 1 => p[[i, j]],
         2 => p[[1 + 2 * i, 1 + 2 * j]],
         3 => p[[r - 1 - i, c - 1 - j]],
-        _ => p[[r - 1 - i, j]],
+        4 | 5 => p[[r - 1 - i, j]],
+        _ => p[[i, c - 1 - j]],
     }
 }
 
